@@ -207,18 +207,20 @@ func c06(c *core.Ctx) string {
 	c.Rule("R-C06-6", "TTL window: Signer.Verify accepts only if (ttl disabled or -ttl <= age <= ttl) and (not presigned or age <= expire time)")
 	c.Rule("R-C06-7", "header rules are matched case-insensitively: on the chain from the configured header-rule name to the lookup, a direct index of the http.Header map is preceded by textproto.CanonicalMIMEHeaderKey / http.CanonicalHeaderKey (or the canonicalising Header methods are used)")
 	c.Rule("R-C06-8", "every credential update received from the user source (etcd sync channel, password-file watcher) is applied to the htpasswd object before the next one is awaited: no content-dependent skip between the receive and Reload / ReloadFromReader")
+	c.Rule("R-C06-9", "no stale payload reader: in every function outside pkg/protocols that replaces a message's payload with SetPayload (the Validator buffers a streamed body this way so that the signer and the backend see the same bytes), a reader obtained from GetPayload() of that message before the replacement is, on every path after it, only closed — never read, passed on or stored (it is the drained stream: its consumer would see an empty body while the replacement is forwarded)")
 	c.NotDecided = []string{
 		"cryptographic correctness of HMAC/SHA-256 and of the third-party jwt library (exp/nbf checks, signature check)",
 		"canonicalisation details: URI escaping, header folding, query encoding, host normalisation; that the signed-header list chosen by the client covers any particular header",
 		"htpasswd / bcrypt matching, the initial load and the parsing of the etcd/file credential sources (only 'every received update is applied' is decided); header-rule value semantics (regexp/values)",
 		"OAuth2 token introspection",
-		"streaming payloads (max body size < 0): the property is quantified over buffered bodies",
+		"streaming payloads (max body size < 0): the property is quantified over buffered bodies; for a streamed body only the ordering 'the reader handed to the signer is obtained after the buffering SetPayload' is decided (R-C06-9)",
 		"that a configured validator is actually instantiated (NewBasicAuthValidator returns nil without a cluster; a signer without access keys panics in Verify: C13)",
 	}
 
 	c06Handle(c)
 	c06JWT(c)
 	c06Body(c)
+	c06StaleReaders(c)
 	c06Signer(c)
 	c06Basic(c)
 	c06HeaderRules(c)
